@@ -235,8 +235,47 @@ def _straight_line(f, evaluator, out_kind):
     out = rets[0].value.id
     stores: dict[str, tuple] = {}
     inp = f.positional_params[0]
-    for st in f.body[:-1]:
-        if isinstance(st, (ast.If, ast.For, ast.While, ast.Try, ast.With)):
+    body = list(f.body[:-1])
+    # a branch on input values: the conversion must not depend on which arm is taken.  Evaluate both arms
+    # (finite enumeration, at most 8 variants) and compare the stores; variant 0 (all true arms) is returned.
+    if any(isinstance(st, ast.If) for st in body):
+        import copy as _copy
+
+        def variants(stmts):
+            for k, st in enumerate(stmts):
+                if isinstance(st, ast.If):
+                    rest = stmts[k + 1:]
+                    outv = []
+                    for arm in (st.body, st.orelse):
+                        for tail in variants(list(arm) + rest):
+                            outv.append(stmts[:k] + tail)
+                    return outv[:8]
+            return [stmts]
+
+        allv = variants(body)
+        results = []
+        for vbody in allv:
+            ev2 = _copy.deepcopy(evaluator)
+            fake = _copy.copy(f)
+            node2 = _copy.copy(f.node)
+            node2.body = vbody + [rets[0]]
+            fake = type(f)(f.module, node2, f.cls)
+            results.append(_straight_line(fake, ev2, out_kind))
+        base = results[0]
+        conflicts = []
+        for r in results[1:]:
+            for k in sorted(set(base) | set(r)):
+                a, b = base.get(k), r.get(k)
+                if a is None or b is None or repr(a[0]) != repr(b[0]):
+                    conflicts.append(k)
+        evaluator.branch_conflicts = sorted(set(conflicts))
+        evaluator.env.update(_copy.deepcopy(evaluator).env)
+        # re-evaluate variant 0 on the real evaluator so that its environment is filled
+        node0 = _copy.copy(f.node)
+        node0.body = allv[0] + [rets[0]]
+        return _straight_line(type(f)(f.module, node0, f.cls), evaluator, out_kind)
+    for st in body:
+        if isinstance(st, (ast.For, ast.While, ast.Try, ast.With)):
             raise AnalysisError(f"{f.qualname}: control flow inside a conversion function is not modelled")
         if isinstance(st, ast.Expr):
             continue
@@ -306,8 +345,17 @@ def run(ctx) -> None:
     c2p = repo.function(MOD, "cartesian2polar")
     fw = Forward(p2c.qualname, {p2c.positional_params[0]})
     cart = _straight_line(p2c, fw, "forward")
+    for k in getattr(fw, "branch_conflicts", []):
+        ctx.violation("R-HARMONIC", f"{p2c.qualname}:{k}", p2c.loc(cart[k][1]) if k in cart else p2c.where,
+                      f"the Cartesian component `{k}` is computed differently depending on a branch on the input "
+                      "coefficients (e.g. only for positive magnitudes): for inputs taking the other arm the component "
+                      "is missing or different and the round trip no longer reproduces chi", key_detail="branch")
     bw = Backward(c2p.qualname, {c2p.positional_params[0]})
     pol = _straight_line(c2p, bw, "backward")
+    for k in getattr(bw, "branch_conflicts", []):
+        ctx.violation("R-HARMONIC", f"{c2p.qualname}:{k}", c2p.loc(pol[k][1]) if k in pol else c2p.where,
+                      f"the polar coefficient `{k}` is computed differently depending on a branch on the input "
+                      "coefficients", key_detail="branch")
 
     # ---------------- R-KEYSETS
     ctx.check(bw.reads == set(cart), "R-KEYSETS", f"{c2p.qualname}:reads", c2p.where,
